@@ -122,6 +122,10 @@ func gen(t *rapid.T) Script {
 			}
 		case "settings":
 			op.Variant = rapid.SampledFrom([]string{"empty", "valid", "unknown-id"}).Draw(t, "sv")
+		case "data_idle", "rst_idle", "window_update_idle":
+			// an idle stream need not be a high odd one: an even identifier the server never promised is idle too,
+			// whatever streams the client has opened meanwhile
+			op.Variant = rapid.SampledFrom([]string{"", "even-low"}).Draw(t, "idlev")
 		case "settings_bad":
 			op.Variant = rapid.SampledFrom([]string{"length", "on-stream", "enable-push-2", "window-too-big", "max-frame-small", "ack-with-payload"}).Draw(t, "sbv")
 		case "ping_bad":
@@ -434,6 +438,13 @@ func exec(t *testing.T, s Script) (viol *vstat.Violation, classes map[string]boo
 			return streams[ref%len(streams)]
 		}
 		idle := func() uint32 { return maxID + 2 + 40 } // an id nobody has used
+		idleFor := func(op Op) uint32 {
+			if op.Variant == "even-low" && maxID >= 3 {
+				classes["frame-on-idle-even-stream-below-the-highest-client-stream"] = true
+				return 2
+			}
+			return idle()
+		}
 
 		for i, op := range s.Ops {
 			if dead {
@@ -728,13 +739,13 @@ func exec(t *testing.T, s Script) (viol *vstat.Violation, classes map[string]boo
 				peer.WriteRequestHeaders(id, fields("/lower"), true, nil, nil)
 			case "data_idle":
 				ex = connErr("data-on-idle-stream", cProtocol)
-				peer.Fr.WriteData(idle(), false, []byte("x"))
+				peer.Fr.WriteData(idleFor(op), false, []byte("x"))
 			case "data_zero":
 				ex = connErr("data-on-stream-0", cProtocol)
 				peer.Fr.WriteRawFrame(xhttp2.FrameData, 0, 0, []byte("x"))
 			case "rst_idle":
 				ex = connErr("rst-on-idle-stream", cProtocol)
-				peer.Fr.WriteRSTStream(idle(), xhttp2.ErrCodeCancel)
+				peer.Fr.WriteRSTStream(idleFor(op), xhttp2.ErrCodeCancel)
 			case "rst_zero":
 				ex = connErr("rst-on-stream-0", cProtocol)
 				peer.Fr.WriteRawFrame(xhttp2.FrameRSTStream, 0, 0, []byte{0, 0, 0, 8})
@@ -743,7 +754,7 @@ func exec(t *testing.T, s Script) (viol *vstat.Violation, classes map[string]boo
 				peer.Fr.WriteRawFrame(xhttp2.FrameRSTStream, 0, 1, []byte{0, 0, 8})
 			case "window_update_idle":
 				ex = connErr("window-update-on-idle-stream", cProtocol)
-				peer.Fr.WriteWindowUpdate(idle(), 10)
+				peer.Fr.WriteWindowUpdate(idleFor(op), 10)
 			case "window_update_zero_inc":
 				ex = connErr("window-update-zero-increment-connection", cProtocol)
 				peer.Fr.WriteRawFrame(xhttp2.FrameWindowUpdate, 0, 0, []byte{0, 0, 0, 0})
@@ -902,7 +913,8 @@ func names(m map[uint32]bool) []string {
 
 func TestModel(t *testing.T) {
 	col.Mandatory("concurrency-limit-reached", "continuation", "continuation-interrupted", "illegal-frame", "request-handled", "connection-error", "client-reset", "trailers", "padding-only-data", "malformed:uppercase", "malformed:missing-path",
-		"data-within-content-length", "data-after-padded-data-within-content-length", "data-beyond-content-length")
+		"data-within-content-length", "data-after-padded-data-within-content-length", "data-beyond-content-length",
+		"frame-on-idle-even-stream-below-the-highest-client-stream")
 	vstat.Run(t, vstat.Spec[Script]{Col: col, Quick: 3000, Thorough: 100000, Gen: gen,
 		Exec: func(s Script) *vstat.Violation {
 			v, cl := exec(t, s)
